@@ -439,10 +439,16 @@ func checkNeeded(c *fw.Ctx) {
 			for _, m := range sortedSet(readers) {
 				a := asg{"type": "m.room.member", "membership": m, "content": "true", "sk": "true", "tpi": "false", "token": "true", "via": "false"}
 				got := false
+				unkHere := map[string]bool{}
 				for _, e := range effects {
-					if e.name == "JoinRules" && evalDNF(conds[e.b], ip.env(a), unk) {
+					if e.name == "JoinRules" && evalDNF(conds[e.b], ip.env(a), unkHere) {
 						got = true
 					}
+				}
+				if !got && len(unkHere) > 0 {
+					// the request sits behind a condition the rule does not know (a list lookup, a helper)
+					c.Undecided(rule, "join rules are requested for membership '"+m+"' (read by the self-membership rules)", "the request of m.room.join_rules depends on "+strings.Join(sortedSet(unkHere), "; "))
+					continue
 				}
 				c.Check(got, rule, "join rules are requested for membership '"+m+"' (read by the self-membership rules)", c.P.Pos(fn.Pos()), "", "membership "+m+" is authorised against the join rule but m.room.join_rules is not part of its needed state: the verdict depends on state outside StateNeededForAuth")
 			}
